@@ -507,20 +507,23 @@ func (s *Snapshotter) compact() error {
 	// Flush the existing snapshot, ignoring errors since we will
 	// replace it momentarily.
 	_ = s.buffered.Flush()
-	s.buffered = nil
 
-	// Close the file handle to the old snapshot
+	// Close the file handle to the old snapshot. The handles are kept
+	// (never set to nil) until new ones are installed: if anything below
+	// fails, later appends get an error from the closed file, which
+	// triggers another recovery attempt, instead of a nil dereference.
 	s.fh.Close()
-	s.fh = nil
 
 	// Move the new file into place
-	if err := os.Rename(newPath, s.path); err != nil {
-		return fmt.Errorf("failed to install new snapshot: %v", err)
-	}
+	renameErr := os.Rename(newPath, s.path)
 
-	// Open the new snapshot
+	// Open the snapshot again: the new one, or the old one if the rename
+	// failed, so that recording continues either way.
 	fh, err = os.OpenFile(s.path, os.O_RDWR|os.O_APPEND|os.O_CREATE, 0755)
 	if err != nil {
+		if renameErr != nil {
+			return fmt.Errorf("failed to install new snapshot: %v", renameErr)
+		}
 		return fmt.Errorf("failed to open snapshot: %v", err)
 	}
 	buf = bufio.NewWriter(fh)
@@ -528,8 +531,11 @@ func (s *Snapshotter) compact() error {
 	// Rotate our handles
 	s.fh = fh
 	s.buffered = buf
-	s.offset = offset
 	s.lastFlush = time.Now()
+	if renameErr != nil {
+		return fmt.Errorf("failed to install new snapshot: %v", renameErr)
+	}
+	s.offset = offset
 	return nil
 }
 
